@@ -740,6 +740,12 @@ def store(ex, base, idx, v, st, ctx, node=None):
         i = z3.Int(fresh_name("i"))
         val = to_real(v) if base.elem == "Real" else to_z3(v)
         return SeqVal(z3.Lambda([i], z3.If(z3.And(to_z3(idx.lo) <= i, i < to_z3(idx.hi)), val, z3.Select(base.arr, i))), base.length, base.elem)
+    if isinstance(base, SeqVal) and isinstance(idx, SeqVal) and _scalar(v):
+        # x[idx_array] = v (numpy integer-array assignment): every position that occurs in idx_array becomes v
+        i, j = z3.Int(fresh_name("i")), z3.Int(fresh_name("j"))
+        val = to_real(v) if base.elem == "Real" else to_z3(v)
+        hit = z3.Exists([j], z3.And(0 <= j, j < idx.length, z3.ToInt(z3.Select(idx.arr, j)) == i, z3.IsInt(z3.Select(idx.arr, j))))
+        return SeqVal(z3.Lambda([i], z3.If(hit, val, z3.Select(base.arr, i))), base.length, base.elem)
     if isinstance(base, SeqVal):
         if isinstance(idx, (slice, tuple)) or (is_z3(idx) and z3.is_bool(idx)):
             raise Havoc("slice/mask store into sequence")
@@ -924,6 +930,25 @@ def _astype(ex, st, ctx, args, kwargs):
         i = z3.Int(fresh_name("i"))
         return SeqVal(z3.Lambda([i], z3.If(z3.Select(v.arr, i) != 0, z3.RealVal(1), z3.RealVal(0))), v.length, v.elem)
     return v
+
+
+@reg("D.ar_numpy.searchsorted", "numpy.searchsorted")
+def _searchsorted(ex, st, ctx, args, kwargs):
+    """numpy.searchsorted(a, v, side) for a 1-D array a and a scalar v (or one element of a vector of queries in a lifted function):
+    the number of elements < v (side='left') / <= v (side='right') -- for a sorted array: the index r with a[k] < v for k < r and
+    a[k] >= v for k >= r, 0 <= r <= len(a) (A3)."""
+    a, v = args[0], args[1]
+    side = kwargs.get("side", args[2] if len(args) > 2 else "left")
+    if isinstance(a, SeqVal) and _scalar(v) and side in ("left", "right"):
+        r = z3.Int(fresh_name("searchsorted"))
+        k = z3.Int(fresh_name("k"))
+        x = to_real(to_z3(v))
+        below = (z3.Select(a.arr, k) < x) if side == "left" else (z3.Select(a.arr, k) <= x)
+        st.assume(z3.And(0 <= r, r <= a.length))
+        st.assume(z3.ForAll([k], z3.Implies(z3.And(0 <= k, k < r), below)))
+        st.assume(z3.ForAll([k], z3.Implies(z3.And(r <= k, k < a.length), z3.Not(below))))
+        return r
+    raise Havoc("searchsorted")
 
 
 @reg("D.ar_numpy.arange")
